@@ -24,7 +24,7 @@ JAC = "xitorch/grad/jachess.py"
 
 
 def rules(model: Model, tier: str) -> List[RuleResult]:
-    V = RuleResult(PROP, "C17-V", "_setup_idxs validation dominates every _Jac construction", min_instances=3)
+    V = RuleResult(PROP, "C17-V", "_setup_idxs validation dominates every _Jac construction", min_instances=4)
     S = RuleResult(PROP, "C17-S", "operator shape (nout, nin) and reshape roles of the products", min_instances=5)
     H = RuleResult(PROP, "C17-H", "hess: gradient closure is a sibling of the function; operator flagged Hermitian", min_instances=3)
     R3 = RuleResult(PROP, "AC3", "create_graph follows the caller in all autograd.grad calls of jachess.py", min_instances=5)
@@ -52,6 +52,21 @@ def _validation(model: Model, V: RuleResult):
         if "isinstance(" in t and "torch.Tensor" in t and "requires_grad" in t and " and " in t:
             if any(isinstance(a, ast.For) for a in ancestors(c)):
                 ok = True
+    # the "all differentiable arguments" default is selected by identity with None only: 0 is a valid index and must not be
+    # mistaken for "no selection" (a falsy test would silently return the Jacobian w.r.t. another argument)
+    ip = su.params()[0]
+    first = [s_ for s_ in su.node.body if isinstance(s_, ast.If)]
+    t0 = first[0].test if first else None
+    is_none = (isinstance(t0, ast.Compare) and isinstance(t0.left, ast.Name) and t0.left.id == ip and len(t0.ops) == 1 and isinstance(t0.ops[0], ast.Is)
+               and isinstance(t0.comparators[0], ast.Constant) and t0.comparators[0].value is None)
+    falsy = [n for n in ast.walk(su.node) if (isinstance(n, ast.UnaryOp) and isinstance(n.op, ast.Not) and isinstance(n.operand, ast.Name) and n.operand.id == ip)
+             or (isinstance(n, (ast.If, ast.IfExp, ast.While)) and isinstance(n.test, ast.Name) and n.test.id == ip)
+             or (isinstance(n, ast.BoolOp) and any(isinstance(v, ast.Name) and v.id == ip for v in n.values))]
+    if is_none and not falsy:
+        V.ok(su.fq, "the default (all differentiable arguments) is chosen only when `%s is None`; the integer index 0 stays an index" % ip)
+    else:
+        V.bad(su, first[0] if first else su.node, "the index selection is tested for truthiness: `%s=0` (a valid index) is treated like None, the validation is skipped "
+              "and the operator for another argument is returned" % ip)
     at = model.func("xitorch/_utils/assertfuncs.py", "assert_type")
     raises_type = any(isinstance(r, ast.Raise) and ast.unparse(r.exc).startswith("TypeError(") for r in own_nodes(at.node))
     if ok and raises_type:
